@@ -34,15 +34,16 @@ type isoCase struct {
 	Ops     int    `json:"ops_per_worker"`
 	Native  bool   `json:"native_walkgetattr"`
 	Perturb bool   `json:"perturb"`
+	Mix     int    `json:"noise_mix,omitempty"` // 0: renames/unlinks/creates; 1: also kept fids, Trename, directory moves, throw-away connections; 2: the same concentrated on two directories and two names
 }
 
 func (c isoCase) encode() string {
-	return fmt.Sprintf("%d,%d,%d,%d,%d,%v,%v", c.Seed, c.Conns, c.Workers, c.Noise, c.Ops, c.Native, c.Perturb)
+	return fmt.Sprintf("%d,%d,%d,%d,%d,%v,%v,%d", c.Seed, c.Conns, c.Workers, c.Noise, c.Ops, c.Native, c.Perturb, c.Mix)
 }
 
 func decodeIso(s string) isoCase {
 	var c isoCase
-	fmt.Sscanf(s, "%d,%d,%d,%d,%d,%t,%t", &c.Seed, &c.Conns, &c.Workers, &c.Noise, &c.Ops, &c.Native, &c.Perturb)
+	fmt.Sscanf(s, "%d,%d,%d,%d,%d,%t,%t,%d", &c.Seed, &c.Conns, &c.Workers, &c.Noise, &c.Ops, &c.Native, &c.Perturb, &c.Mix)
 	return c
 }
 
@@ -124,6 +125,10 @@ func isoBody(c isoCase) *fail {
 		wg.Add(1)
 		go func(n int) {
 			defer wg.Done()
+			if c.Mix >= 1 {
+				isoNoiseWild(c, n, srv, clients[(c.Workers+n)%len(clients)], &progress[c.Workers+n], stop)
+				return
+			}
 			isoNoise(c, n, clients[(c.Workers+n)%len(clients)], &progress[c.Workers+n], stop)
 		}(n)
 	}
@@ -383,6 +388,181 @@ func isoNoise(c isoCase, n int, cl *p9.Client, progress *int64, stop <-chan stru
 	}
 }
 
+// isoNoiseWild is the richer noise mix: besides renames, unlinks and creates it
+// keeps fids on shared entries across operations and clunks them later, renames
+// through such fids (Trename), moves directories, lists and stats, and opens
+// throw-away connections that are cut off with their fids still bound. Every
+// goroutine works sequentially on fids of its own (one request outstanding per
+// fid); results are not compared, only completion, survival and race reports.
+func isoNoiseWild(c isoCase, n int, srv *p9.Server, cl *p9.Client, progress *int64, stop <-chan struct{}) {
+	r := newSplitMix(c.Seed*131 + uint64(n)*7)
+	root, err := cl.Attach("")
+	if err != nil {
+		return
+	}
+	defer root.Close()
+	var keep []p9.File
+	var side *p9.Client
+	var sideClose func()
+	var sideKeep []p9.File
+	dropSide := func() {
+		if side != nil {
+			sideClose()
+			side, sideKeep = nil, nil
+		}
+	}
+	defer func() {
+		for _, f := range keep {
+			f.Close()
+		}
+		dropSide()
+	}()
+	// Mix 2 is the "hot spot" variant: two directories, two names and mostly
+	// operations through kept fids, so that different goroutines keep meeting on
+	// the same entries.
+	hot := c.Mix == 2
+	hotOps := []uint64{0, 0, 2, 4, 4, 5, 5, 6, 6, 9, 9, 9, 9, 9, 9, 9, 9, 8, 7, 10, 12, 13}
+	sdir := func() string {
+		if hot {
+			return fmt.Sprintf("s%d", r.next()%2)
+		}
+		return fmt.Sprintf("s%d", r.next()%4)
+	}
+	ent := func() string {
+		if hot {
+			return fmt.Sprintf("n%d", r.next()%2)
+		}
+		if r.next()%5 == 0 {
+			return fmt.Sprintf("d%d", r.next()%2)
+		}
+		return fmt.Sprintf("n%d", r.next()%3)
+	}
+	walk := func(from p9.File, names ...string) p9.File {
+		_, f, err := from.Walk(names)
+		if err != nil {
+			return nil
+		}
+		return f
+	}
+	for i := 0; i < c.Ops; i++ {
+		select {
+		case <-stop:
+			return
+		default:
+		}
+		atomic.StoreInt64(progress, int64(i))
+		op := r.next() % 14
+		if hot {
+			op = hotOps[r.next()%uint64(len(hotOps))]
+		}
+		if len(keep) > 16 { // bound the number of fids a goroutine holds
+			op = 2
+		}
+		switch op {
+		case 0, 1: // bind a fid to an entry and keep it
+			if f := walk(root, "shared", sdir(), ent()); f != nil {
+				keep = append(keep, f)
+			}
+		case 2, 3: // clunk a kept fid while others rename around it
+			if len(keep) > 0 {
+				k := int(r.next() % uint64(len(keep)))
+				keep[k].Close()
+				keep = append(keep[:k], keep[k+1:]...)
+			}
+		case 4: // rename within one directory
+			if d := walk(root, "shared", sdir()); d != nil {
+				d.RenameAt(ent(), d, ent())
+				d.Close()
+			}
+		case 5: // rename across directories (files and directories)
+			da, db := walk(root, "shared", sdir()), walk(root, "shared", sdir())
+			if da != nil && db != nil {
+				da.RenameAt(ent(), db, ent())
+			}
+			if da != nil {
+				da.Close()
+			}
+			if db != nil {
+				db.Close()
+			}
+		case 6: // Trename through a kept fid
+			if len(keep) > 0 {
+				if d := walk(root, "shared", sdir()); d != nil {
+					keep[int(r.next()%uint64(len(keep)))].Rename(d, ent())
+					d.Close()
+				}
+			}
+		case 7: // unlink
+			if d := walk(root, "shared", sdir()); d != nil {
+				d.UnlinkAt(ent(), 0)
+				d.Close()
+			}
+		case 8: // create (rebinding a clone) or mkdir
+			if d := walk(root, "shared", sdir()); d != nil {
+				if r.next()%3 == 0 {
+					d.Mkdir(fmt.Sprintf("d%d", r.next()%2), 0o755, 0, 0)
+					d.Close()
+				} else if _, _, _, err := d.Create(fmt.Sprintf("n%d", r.next()%3), p9.ReadWrite, 0o644, 0, 0); err == nil {
+					if r.next()%2 == 0 {
+						keep = append(keep, d) // an open fid on the new entry
+					} else {
+						d.Close()
+					}
+				} else {
+					d.Close()
+				}
+			}
+		case 9: // use a kept fid
+			if len(keep) > 0 {
+				f := keep[int(r.next()%uint64(len(keep)))]
+				k := r.next() % 3
+				if hot && r.next()%2 == 0 {
+					k = 2
+				}
+				switch k {
+				case 0:
+					f.GetAttr(p9.AttrMaskAll)
+				case 1:
+					f.SetAttr(p9.SetAttrMask{Permissions: true}, p9.SetAttr{Permissions: 0o640})
+				default:
+					if g := walk(f); g != nil { // clone
+						g.Close()
+					}
+				}
+			}
+		case 10: // list a shared directory
+			if d := walk(root, "shared", sdir()); d != nil {
+				if _, _, err := d.Open(p9.ReadOnly); err == nil {
+					d.Readdir(0, 4096)
+				}
+				d.Close()
+			}
+		case 11: // multi-component walk through the shared area
+			if f := walk(root, "shared", sdir(), "d0", ent()); f != nil {
+				f.Close()
+			}
+		case 12: // a throw-away connection binds some fids
+			if side == nil {
+				if sc, closeFn, err := dialPipe(srv); err == nil {
+					side, sideClose = sc, closeFn
+				}
+			}
+			if side != nil {
+				if sr, err := side.Attach(""); err == nil {
+					sideKeep = append(sideKeep, sr)
+					for k := uint64(0); k < 1+r.next()%3; k++ {
+						if f := walk(sr, "shared", sdir(), ent()); f != nil {
+							sideKeep = append(sideKeep, f)
+						}
+					}
+				}
+			}
+		default: // ... and is cut off with them still bound
+			dropSide()
+		}
+	}
+}
+
 // TestC16Child is the child-process body.
 func TestC16Child(t *testing.T) {
 	if os.Getenv("VERIF_CHILD") == "" {
@@ -422,7 +602,7 @@ func runIsoCase(c isoCase) *fail {
 				msg += " | server goroutines: " + out[a+12:b]
 			}
 		}
-		return &fail{Sig: line[len("CHILD-VIOLATION [") : strings.IndexByte(line, ']')], Msg: msg}
+		return &fail{Sig: line[len("CHILD-VIOLATION ["):strings.IndexByte(line, ']')], Msg: msg}
 	}
 	if strings.Contains(out, "fatal error:") {
 		return failf("runtime-abort", "the server process aborted: %s", firstLines(out, "fatal error:", 25))
@@ -485,15 +665,32 @@ func TestC16(t *testing.T) {
 	}
 	shrinkTime = "1s" // a stuck workload costs 30 s per attempt: do not spend minutes shrinking it
 	defer func() { shrinkTime = "20s" }()
-	rapidCases(h, "workloads", env.PerShard(env.Pick(400, 32000)), func(rt *rapid.T) isoCase {
+	nWork := env.PerShard(env.Pick(400, 32000))
+	raceStage := os.Getenv("VERIF_C16_RACE") != "" // the -race stage: fewer, smaller, mostly hot-spot workloads
+	if raceStage {
+		nWork = env.PerShard(env.Pick(640, 9600))
+	}
+	rapidCases(h, "workloads", nWork, func(rt *rapid.T) isoCase {
+		if raceStage {
+			return isoCase{Seed: rapid.Uint64Range(1, 1<<40).Draw(rt, "seed"), Conns: rapid.IntRange(1, 4).Draw(rt, "conns"),
+				Workers: rapid.IntRange(2, 6).Draw(rt, "workers"), Noise: rapid.IntRange(2, 4).Draw(rt, "noise"),
+				Ops: rapid.IntRange(50, 120).Draw(rt, "ops"), Native: rapid.Bool().Draw(rt, "native"), Perturb: rapid.Bool().Draw(rt, "perturb"),
+				Mix: rapid.SampledFrom([]int{0, 1, 2, 2, 2, 2}).Draw(rt, "mix")}
+		}
 		return isoCase{Seed: rapid.Uint64Range(1, 1<<40).Draw(rt, "seed"), Conns: rapid.IntRange(1, 8).Draw(rt, "conns"),
 			Workers: rapid.IntRange(2, maxW).Draw(rt, "workers"), Noise: rapid.IntRange(0, 4).Draw(rt, "noise"),
-			Ops: rapid.IntRange(50, 200).Draw(rt, "ops"), Native: rapid.Bool().Draw(rt, "native"), Perturb: rapid.Bool().Draw(rt, "perturb")}
+			Ops: rapid.IntRange(50, 200).Draw(rt, "ops"), Native: rapid.Bool().Draw(rt, "native"), Perturb: rapid.Bool().Draw(rt, "perturb"),
+			Mix: rapid.IntRange(0, 2).Draw(rt, "mix")}
 	}, func(c isoCase) *fail {
 		f := runIsoCase(c)
 		cls := "workloads:no-renamer"
 		if c.Noise > 0 {
 			cls = "workloads:with-cross-directory-renames"
+			if c.Mix == 1 {
+				cls = "workloads:with-kept-fids-directory-moves-and-dropped-connections"
+			} else if c.Mix == 2 {
+				cls = "workloads:hot-spot-kept-fids-on-two-names"
+			}
 		}
 		h.Case(evid.HashJSON(c), c.Workers >= 2, cls)
 		h.Count("operations-issued", int64((c.Workers+c.Noise)*c.Ops))
